@@ -4,6 +4,8 @@ CONSTANTS
   ERAS = 3
 SPECIFICATION Spec
 INVARIANT INear
+INVARIANT IDoc
+INVARIANT ITie
 INVARIANT IVsRef
 INVARIANT IOrder
 INVARIANT IShift
